@@ -216,10 +216,10 @@ pub fn judge_cli(st: &mut Stats, c: &Circuit, only: Option<&str>) {
     }
 }
 
-pub fn run(rep: &mut Report) {
-    rep.rule = "case = (circuit, simplifier, extractor mode, back end) or (circuit, CLI flag); the extracted circuit is simulated gate by gate and compared projectively (non-zero factor) with the source; non-trivial = extraction succeeded and was equivalent".into();
-    rep.assume("CLI runs in-process through quizx::cli::Cli::try_parse_from(...).run() with -o; a zero-gate output is compared as the identity on the source's qubits (its lost qubit count is judged by C14)");
-    let quick = rep.quick();
+type Fam = (&'static str, usize, Vec<Gate>, usize);
+
+/// (circuit families, alphabet of the CLI families)
+fn families(quick: bool) -> (Vec<Fam>, Vec<Gate>) {
     let mut swap2 = alpha_ct(2);
     swap2.push(Gate::new(SWAP, vec![0, 1]));
     // several CCZ / Toffoli gates with Paulis and Hadamards in between: the source of phase gadgets with
@@ -228,16 +228,39 @@ pub fn run(rep: &mut Report) {
         Gate::new(CCZ, vec![0, 1, 2]), Gate::new(CCZ, vec![2, 1, 0]), Gate::new(CCZ, vec![0, 2, 1]), Gate::new(TOFF, vec![0, 1, 2]), Gate::new(TOFF, vec![1, 2, 0]),
         g1(NOT, 0), g1(NOT, 1), g1(NOT, 2), g1(HAD, 0), g1(HAD, 1), g1(HAD, 2), g1(T, 0), g1(Z, 1), Gate::new(CNOT, vec![0, 1]), Gate::new(CNOT, vec![1, 2]),
     ];
-    let fams: Vec<(&str, usize, Vec<Gate>, usize)> = if quick {
-        vec![("K(3,3,A_ccz)", 3, ccz3.clone(), 3), ("K(2,3,A_ct+swap)", 2, swap2.clone(), 3), ("K(3,2,A_full)", 3, alpha_full(3), 2), ("K(3,4,A_cnot)", 3, alpha_cnot(3), 4), ("K(2,2,A_tol)", 2, alpha_tol(2), 2), ("K(3,4,A_pp)", 3, alpha_pp(3), 4), ("K(4,2,A_pp)", 4, alpha_pp(4), 2)]
+    // Toffoli-type gates only, on 4 qubits: every CCZ triple and every Toffoli (triple x target); words of these create
+    // many phase gadgets whose hubs are pivoted away during extraction (vertex ids are recycled by the vector back end)
+    let mut tof4: Vec<Gate> = vec![];
+    for a in 0..4usize {
+        for b in a + 1..4 {
+            for c in b + 1..4 {
+                tof4.push(Gate::new(CCZ, vec![a, b, c]));
+                tof4.push(Gate::new(TOFF, vec![a, b, c]));
+                tof4.push(Gate::new(TOFF, vec![a, c, b]));
+                tof4.push(Gate::new(TOFF, vec![b, c, a]));
+            }
+        }
+    }
+    let fams: Vec<Fam> = if quick {
+        vec![("K(3,3,A_ccz)", 3, ccz3.clone(), 3), ("K(2,3,A_ct+swap)", 2, swap2.clone(), 3), ("K(3,2,A_full)", 3, alpha_full(3), 2), ("K(3,4,A_cnot)", 3, alpha_cnot(3), 4), ("K(2,2,A_tol)", 2, alpha_tol(2), 2), ("K(3,4,A_pp)", 3, alpha_pp(3), 4), ("K(4,2,A_pp)", 4, alpha_pp(4), 2), ("K(4,3,A_tof4)", 4, tof4.clone(), 3)]
     } else {
-        vec![("K(3,4,A_ccz)", 3, ccz3.clone(), 4), ("K(2,4,A_ct+swap)", 2, swap2.clone(), 4), ("K(3,3,A_ct)", 3, alpha_ct(3), 3), ("K(3,2,A_full)", 3, alpha_full(3), 2), ("K(2,3,A_full)", 2, alpha_full(2), 3), ("K(3,6,A_cnot)", 3, alpha_cnot(3), 6), ("K(4,4,A_cnot)", 4, alpha_cnot(4), 4), ("K(2,3,A_tol)", 2, alpha_tol(2), 3), ("K(3,5,A_pp)", 3, alpha_pp(3), 5), ("K(4,4,A_pp)", 4, alpha_pp(4), 4)]
+        vec![("K(3,4,A_ccz)", 3, ccz3.clone(), 4), ("K(2,4,A_ct+swap)", 2, swap2.clone(), 4), ("K(3,3,A_ct)", 3, alpha_ct(3), 3), ("K(3,2,A_full)", 3, alpha_full(3), 2), ("K(2,3,A_full)", 2, alpha_full(2), 3), ("K(3,6,A_cnot)", 3, alpha_cnot(3), 6), ("K(4,4,A_cnot)", 4, alpha_cnot(4), 4), ("K(2,3,A_tol)", 2, alpha_tol(2), 3), ("K(3,5,A_pp)", 3, alpha_pp(3), 5), ("K(4,4,A_pp)", 4, alpha_pp(4), 4), ("K(4,4,A_tof4)", 4, tof4.clone(), 4)]
     };
-    for (name, q, alpha, d) in fams {
+    (fams, swap2)
+}
+
+pub fn run(rep: &mut Report) {
+    rep.rule = "case = (circuit, simplifier, extractor mode, back end) or (circuit, CLI flag); the extracted circuit is simulated gate by gate and compared projectively (non-zero factor) with the source; non-trivial = extraction succeeded and was equivalent".into();
+    rep.assume("CLI runs in-process through quizx::cli::Cli::try_parse_from(...).run() with -o; a zero-gate output is compared as the identity on the source's qubits (its lost qubit count is judged by C14)");
+    let quick = rep.quick();
+    let (fams, swap2) = families(quick);
+    for (fi, (name, q, alpha, d)) in fams.into_iter().enumerate() {
         let t0 = Instant::now();
         let n = circuit_count(alpha.len(), d);
+        // the watchdog names a case that does not return by (index, family id): see replay "index"
+        let fam_id = (if quick { 0 } else { 100 }) + fi as u64;
         let stats = sweep_range(n, |st, idx| {
-            watch_begin(idx, 0);
+            watch_begin(idx, fam_id);
             st.inc("cases");
             let c = circuit_at(q, &alpha, d, idx);
             judge::<quizx::vec_graph::Graph>(st, &c, "vec", None);
@@ -269,6 +292,30 @@ pub fn run(rep: &mut Report) {
 }
 
 pub fn replay(w: &Value) -> Option<Violation> {
+    if w["kind"] == "index" {
+        // a case the watchdog reported as not returning: rebuild it from (family id, index) and run it under a timer
+        let (inner, outer) = (w["inner"].as_u64()?, w["outer"].as_u64()?);
+        let (fams, _) = families(inner < 100);
+        let (name, q, alpha, d) = fams.get((inner % 100) as usize)?.clone();
+        let c = circuit_at(q, &alpha, d, outer);
+        println!("family {} index {}:\n{}", name, outer, c.to_qasm());
+        let (tx, rx) = std::sync::mpsc::channel();
+        let c2 = c.clone();
+        std::thread::spawn(move || {
+            let mut st = Stats::default();
+            judge::<quizx::vec_graph::Graph>(&mut st, &c2, "vec", None);
+            judge::<quizx::hash_graph::Graph>(&mut st, &c2, "hash", None);
+            let _ = tx.send(st.viols.into_values().next().map(|(_, v)| v));
+        });
+        return match rx.recv_timeout(std::time::Duration::from_secs(20)) {
+            Ok(v) => v,
+            Err(_) => {
+                println!("REPRODUCED property=C03 signature=nontermination");
+                println!("  optimise-and-extract did not return within 20 s");
+                std::process::exit(1);
+            }
+        };
+    }
     let c = circuit_from_json(&w["circuit"])?;
     let mut st = Stats::default();
     if w["kind"] == "cli" {
